@@ -137,10 +137,17 @@ CHECKS = {
          "config_write_file (C09_write_independent) are functions of the call, the file system and the configuration's attributes only; "
          "C09_read_success (type none), C09_read_failure (parse error, or exactly the I/O record when the file cannot be opened), "
          "C09_parse_failure_text (every parser failure carries a message; induction over the parser loop), C09_string_no_include_file, "
-         "C09_write_result. Tied to the code by correspondence on ALL histories up to the length bound over 14 event kinds (ok/failing "
+         "C09_write_result. Position of the report (Properties/C09Line.lean, over the translated tables): C09L_position / C09L_read_string/"
+         "_stream/_file — the recorded line is the scanner's line after the offending token and the recorded file is the file current "
+         "there (NULL for strings and streams, the included file's name inside an include: C09L_readCore_file_top), for syntax "
+         "errors (first token that cannot continue a sentence; the final line when the text ends too early), duplicate names (the NAME "
+         "token) and mismatching array elements (the element token) — with the one exception that a mismatching STRING element is "
+         "reported at the FOLLOWING token (reportIndex; C09L_string_element_finding refutes the naive statement: the recorded finding, "
+         "now exact). Kernel-decided table facts say why: which states reduce by default without fetching a lookahead. "
+         "Tied to the code by correspondence on ALL histories up to the length bound over 14 event kinds (ok/failing "
          "reads of each error kind at different lines and in an included file, through the three entry points, missing file, directory, "
          "ok/failing writes), with the isolated expectation of each event as direct oracle."),
-   note=TB + "The C++ exception mapping of the same record is checked under C17.",
+   note=TB + "Assumes nesting within the parser stack bound (as C02D) and a run without include errors for the position theorem. The C++ exception mapping of the same record is checked under C17.",
    technique='history-independence theorems in Lean 4 (incl. parser-loop invariants) + exhaustive-to-bound history correspondence', ref='§5 C09'),
  'C10': dict(
    text=("Proved: C10_splice — for every include tree of at most 10 levels cut at line boundaries (IncludeTreeOK': every named file "
